@@ -115,6 +115,7 @@ type zzAbs struct {
 	willProps   []zzProp
 	willTopic   []byte
 	willPayload []byte
+	willDup     bool // DUP bit of the attached will message (API-built packets only; not on the wire)
 	hasUser     bool
 	username    []byte
 	hasPass     bool
